@@ -1237,6 +1237,350 @@ def eval_cases2(ck: Ck, cases: list[dict]) -> None:
         ck.extra['two_disagreements'] = bad[:5]
 
 
+# =============================================================================================== interpreter vs CPython
+# The symbolic interpreter of SM/AtomicExit.v (exec / exit_tree) and the transliteration in translate/c12_atomic.py are
+# hand-written semantics of a Python subset.  They are tied to CPython here: random `__exit__` bodies in that subset
+# (nested try/except/else/finally, returns inside try/finally, bare and explicit raise, aliases that may be None,
+# tuple assignment, suppress) are (1) executed by CPython against mock objects whose close/replace/unlink follow an
+# oracle of results, (2) transliterated by the translator and walked in the kernel with the same oracle.  The calls
+# performed, their results and how the function ends (returns / raises or lets the body's exception through) must agree.
+class _Orc:
+    def __init__(self, results: list[int]) -> None:
+        self.results, self.pos, self.log = results, 0, []
+
+    def next(self, op: int) -> int:
+        r = self.results[self.pos] if self.pos < len(self.results) else 0
+        self.pos += 1
+        if op == 0:
+            r = 1 if r == 1 else 0
+        self.log.append([op, r])
+        return r
+
+
+class _MockTemp:
+    def __init__(self, orc: _Orc) -> None:
+        self._orc = orc
+
+    def close(self) -> None:
+        if self._orc.next(0) == 1:
+            raise OSError(errno.EIO, 'mock close')
+
+    def __exit__(self, *a: Any) -> None:
+        self.close()
+
+
+class _MockPath:
+    def __init__(self, orc: _Orc) -> None:
+        self._orc = orc
+
+    def replace(self, dst: Any) -> None:
+        r = self._orc.next(1)
+        if r == 1:
+            raise OSError(errno.EIO, 'mock replace')
+        if r == 2:
+            raise FileNotFoundError('mock replace')
+    rename = replace
+
+    def unlink(self, missing_ok: bool = False) -> None:
+        r = self._orc.next(2)
+        if r == 1:
+            raise OSError(errno.EIO, 'mock unlink')
+        if r == 2 and not missing_ok:
+            raise FileNotFoundError('mock unlink')
+
+
+class _MockOs:
+    @staticmethod
+    def replace(a: Any, b: Any) -> None:
+        if a is None:
+            raise TypeError('mock os.replace(None)')
+        a.replace(b)
+    rename = replace
+
+    @staticmethod
+    def unlink(a: Any) -> None:
+        if a is None:
+            raise TypeError('mock os.unlink(None)')
+        a.unlink()
+    remove = unlink
+
+
+def gen_exit_source(rng: Any) -> str:
+    """A random __exit__ in the translator's subset (all locals are bound in a prologue)."""
+    calls = [0]
+
+    def call() -> str:
+        calls[0] += 1
+        T = rng.choice(['self.temp', 't', 't'])
+        N = rng.choice(['self._temp_name', 'n', 'n'])
+        k = rng.randrange(9)
+        if k < 3:
+            return rng.choice([f'{T}.close()', f'{T}.__exit__(exc_type, exc_value, tback)'])
+        if k < 5:
+            return rng.choice([f'{N}.replace(self.filename)', f'os.replace({N}, self.filename)', f'{N}.rename(self.filename)'])
+        return rng.choice([f'{N}.unlink()', f'{N}.unlink(missing_ok=True)', f'os.unlink({N})', f'os.remove({N})',
+                           f'{N}.unlink(missing_ok=False)'])
+
+    def test() -> str:
+        atoms = ['exc_type is None', 'exc_type is not None', 't is not None', 't is None', 'n is None', 'flag', 'not flag',
+                 'done', 'not done', 'exc_value is None', 'self.temp is None', 'flag is True', 'done is not False']
+        a = rng.choice(atoms)
+        if rng.random() < 0.3:
+            a = f'{a} {rng.choice(["and", "or"])} {rng.choice(atoms)}'
+        if rng.random() < 0.1:
+            a = f'not ({a})'
+        return a
+
+    def block(depth: int, ind: str, n: int) -> list[str]:
+        out: list[str] = []
+        for _ in range(n):
+            out += stmt(depth, ind)
+        return out or [ind + 'pass']
+
+    def stmt(depth: int, ind: str) -> list[str]:
+        k = rng.random()
+        if k < 0.30 and calls[0] < 5:
+            return [ind + call()]
+        if k < 0.42:
+            return [ind + rng.choice(['flag = True', 'flag = False', 'done = True', 't = None', 't = self.temp',
+                                      'n = self._temp_name', 'self.temp = None', 't, self.temp = self.temp, None',
+                                      'flag, done = done, True', 'n = None'])]
+        if k < 0.58 and depth < 3:
+            out = [ind + f'if {test()}:'] + block(depth + 1, ind + '    ', rng.choice([1, 1, 2]))
+            if rng.random() < 0.5:
+                out += [ind + 'else:'] + block(depth + 1, ind + '    ', rng.choice([1, 2]))
+            return out
+        if k < 0.80 and depth < 3:
+            out = [ind + 'try:'] + block(depth + 1, ind + '    ', rng.choice([1, 2, 3]))
+            nh = rng.choice([0, 1, 1, 2])
+            fin = rng.random() < 0.55 or nh == 0
+            classes = rng.sample(['OSError', 'FileNotFoundError', 'Exception', '(FileNotFoundError, KeyError)', 'KeyError',
+                                  'BaseException', 'IOError'], nh)
+            if nh and rng.random() < 0.2:
+                classes[-1] = ''
+            for c in classes:
+                out += [ind + (f'except {c}:' if c else 'except:')] + block(depth + 1, ind + '    ', rng.choice([1, 1, 2]))
+            if nh and rng.random() < 0.3:
+                out += [ind + 'else:'] + block(depth + 1, ind + '    ', 1)
+            if fin:
+                out += [ind + 'finally:'] + block(depth + 1, ind + '    ', rng.choice([1, 2]))
+            return out
+        if k < 0.86:
+            return [ind + rng.choice(['return', 'return None', 'return False', 'return True'])]
+        if k < 0.92:
+            return [ind + rng.choice(['raise', 'raise RuntimeError()', 'raise'])]
+        if k < 0.96 and depth < 3:
+            return [ind + 'with suppress(FileNotFoundError):'] + block(depth + 1, ind + '    ', rng.choice([1, 2]))
+        return [ind + 'pass']
+
+    body = ['    t = self.temp', '    n = self._temp_name', '    flag = False', '    done = False']
+    body += block(0, '    ', rng.choice([2, 3, 4, 5]))
+    return 'def __exit__(self, exc_type, exc_value, tback):\n' + '\n'.join(body) + '\n'
+
+
+CORPUS_EXIT = [
+    # the repaired __exit__, the pinned one, the shape of seeded c12_1, and some semantic corner cases
+    """def __exit__(self, exc_type, exc_value, tback):
+    temp, self.temp = self.temp, None
+    committed = False
+    try:
+        if temp is not None:
+            temp.__exit__(exc_type, exc_value, tback)
+        if self._temp_name is None:
+            return None
+        if exc_type is None:
+            self._temp_name.replace(self.filename)
+            committed = True
+    finally:
+        if not committed and self._temp_name is not None:
+            try:
+                self._temp_name.unlink()
+            except FileNotFoundError:
+                pass
+    return None
+""",
+    """def __exit__(self, exc_type, exc_value, tback):
+    if self.temp is not None:
+        self.temp.__exit__(exc_type, exc_value, tback)
+    if self._temp_name is None:
+        return None
+    if exc_type is not None:
+        try:
+            self._temp_name.unlink()
+        except FileNotFoundError:
+            pass
+    else:
+        self._temp_name.replace(self.filename)
+    return None
+""",
+    """def __exit__(self, exc_type, exc_value, tback):
+    try:
+        self.temp.close()
+    finally:
+        if exc_type is None:
+            self._temp_name.replace(self.filename)
+        else:
+            self._temp_name.unlink(missing_ok=True)
+""",
+    """def __exit__(self, exc_type, exc_value, tback):
+    try:
+        try:
+            self.temp.close()
+        finally:
+            return True
+    finally:
+        self._temp_name.unlink()
+""",
+    """def __exit__(self, exc_type, exc_value, tback):
+    try:
+        self._temp_name.replace(self.filename)
+    except OSError:
+        try:
+            self._temp_name.unlink()
+        finally:
+            raise
+    else:
+        self.temp.close()
+""",
+    """def __exit__(self, exc_type, exc_value, tback):
+    t = None
+    try:
+        t.close()
+    except FileNotFoundError:
+        return True
+    except Exception:
+        self._temp_name.unlink()
+        raise
+""",
+    # a bare raise inside a finally re-raises the exception in flight (or fails when there is none)
+    """def __exit__(self, exc_type, exc_value, tback):
+    try:
+        try:
+            self._temp_name.unlink()
+        finally:
+            raise
+    except FileNotFoundError:
+        self.temp.close()
+    except OSError:
+        self._temp_name.replace(self.filename)
+""",
+    # an exception in the else clause is not caught by the handlers of the same try; the finally still runs
+    """def __exit__(self, exc_type, exc_value, tback):
+    try:
+        self.temp.close()
+    except OSError:
+        self._temp_name.unlink(missing_ok=True)
+    else:
+        self._temp_name.replace(self.filename)
+    finally:
+        if exc_type is not None:
+            return False
+""",
+    # a handler that raises something new; an outer finally that swallows by returning
+    """def __exit__(self, exc_type, exc_value, tback):
+    try:
+        try:
+            self._temp_name.replace(self.filename)
+        except FileNotFoundError:
+            raise RuntimeError()
+        except OSError:
+            raise
+    except Exception:
+        self._temp_name.unlink()
+        return True
+    finally:
+        self.temp.close()
+""",
+    # return inside try, overridden by an exception raised in the finally
+    """def __exit__(self, exc_type, exc_value, tback):
+    try:
+        return True
+    finally:
+        self.temp.close()
+        self._temp_name.unlink()
+""",
+]
+
+
+def interp_correspondence(ck: Ck) -> None:
+    import ast as _ast
+    import contextlib
+    nprog = budget(ck, 120, 600)
+    progs: list[tuple[str, str]] = []          # (python source, coq term)
+    rejected = 0
+    sources = list(CORPUS_EXIT)
+    while len(sources) < len(CORPUS_EXIT) + nprog:
+        sources.append(gen_exit_source(ck.rng))
+    for src in sources:
+        fn = _ast.parse(src).body[0]
+        try:
+            term, _slots = c12_atomic._exit_prog(fn)
+        except c12_atomic.TranslateError:
+            rejected += 1           # the translator refuses (fail closed): nothing to compare
+            continue
+        progs.append((src, term))
+    oracles = [[], [1] * 6, [2] * 6, [0, 1], [0, 2], [0, 0, 1], [1, 0, 2]] + \
+              [[ck.rng.choice([0, 0, 1, 2]) for _ in range(6)] for _ in range(3)]
+    bad: list[dict] = []
+    n = 0
+    for lo in range(0, len(progs), 60):
+        part = progs[lo:lo + 60]
+        exprs = []
+        for _src, term in part:
+            walks = '; '.join(f'walk (exit_tree p {"true" if exc else "false"}) {coq_list(map(str, o))}'
+                              for exc in (False, True) for o in oracles)
+            exprs.append(f'let p := {term} in [{walks}]')
+        vals = ck.coq_eval(IMPORTS, [coq_list(exprs)], name='aw_interp', preamble=PRE)
+        if vals is None:
+            ck.obligation('correspondence:exit-interpreter', False, 'model could not be evaluated')
+            ck.tie_broken.append('correspondence exit interpreter: evaluation failed')
+            return
+        res = parse_coq_nested(vals[0])
+        for (src, _term), rows in zip(part, res):
+            ns: dict[str, Any] = {'os': _MockOs, 'suppress': contextlib.suppress, 'contextlib': contextlib}
+            exec(compile(src, '<generated __exit__>', 'exec'), ns)
+            fn = ns['__exit__']
+            it = iter(rows)
+            for exc in (False, True):
+                for o in oracles:
+                    log_m, fin_m = next(it)
+                    orc = _Orc(list(o))
+                    obj = type('W', (), {})()
+                    obj.temp, obj._temp_name, obj.filename = _MockTemp(orc), _MockPath(orc), object()
+                    ei = (ValueError, ValueError('body'), None) if exc else (None, None, None)
+                    try:
+                        rv = fn(obj, *ei)
+                        fin_r = 1 if (exc and not rv) else 0
+                    except (UnboundLocalError, NameError):
+                        fin_r = 2
+                    except BaseException:
+                        fin_r = 1
+                    n += 1
+                    ck.count('interpreter_cases')
+                    ck.hist('interp_calls', len(orc.log))
+                    ck.hist('interp_end', ['returns', 'raises', 'outside'][fin_m])
+                    if fin_m == 2 or fin_r == 2:
+                        ok = fin_m == fin_r
+                    else:
+                        ok = (log_m, fin_m) == (orc.log, fin_r)
+                    if len(orc.log) >= 1:
+                        ck.seen(('interp', hash(src) & 0xffffffff, exc, tuple(o)))
+                    if not ok:
+                        bad.append({'source': src, 'body_raised': exc, 'oracle': o, 'model': [log_m, fin_m],
+                                    'cpython': [orc.log, fin_r]})
+    ck.extra['interpreter_programs'] = {'compared': len(progs), 'rejected_by_translator': rejected}
+    ck.obligation('correspondence:exit-interpreter', not bad,
+                  f'{n} executions of {len(progs)} __exit__ bodies ({len(CORPUS_EXIT)} fixed + random; {rejected} refused by '
+                  f'the translator) in CPython against mock objects vs walk (exit_tree ..) in the kernel: {len(bad)} disagreements')
+    if bad:
+        ck.tie_broken.append('correspondence exit interpreter: the kernel interpreter / transliteration disagrees with CPython')
+        ck.extra['interpreter_disagreements'] = bad[:5]
+        ck.violation('exit-interpreter-disagrees-with-cpython',
+                     f'model {bad[0]["model"]} vs CPython {bad[0]["cpython"]} (body_raised={bad[0]["body_raised"]}, '
+                     f'oracle={bad[0]["oracle"]}) on\n{bad[0]["source"]}', bad[0])
+        ck.explain('correspondence:exit-interpreter')
+
+
 # =============================================================================================== main
 def run(ck: Ck) -> None:
     ck.level = 'proof'
@@ -1329,6 +1673,10 @@ def _campaigns(ck: Ck, built: bool) -> None:
     stage: dict[str, float] = {}
     ck.extra['stage_seconds'] = stage
     stage['translate+build+obligations'] = round(time.time() - ck.t0, 1)
+    t1 = time.time()
+    if built:
+        interp_correspondence(ck)
+    stage['interpreter'] = round(time.time() - t1, 1)
     t1 = time.time()
     scs = scenarios(ck)
     single_campaign(ck, scs, bool(built))
